@@ -85,7 +85,9 @@ def main():
         kind, val = res
         expect_err = want_value is NOVALUE
         # C01: only an ordinary ValueError, never SystemError (a Rust panic) or anything else
-        if kind == "exc" and type(val) is not ValueError:
+        # a subclass of ValueError (e.g. UnicodeEncodeError for text that cannot be UTF-8) IS a
+        # ValueError for every caller; anything else is a different exception type
+        if kind == "exc" and not isinstance(val, ValueError):
             cls = type(val).__name__
             V("c01.python" if cls in ("SystemError", "MemoryError", "RecursionError") else monitor, "wrong-exception:%s:%s" % (cls, label), rule, data,
               "ValueError" if expect_err else {"value": repr(want_value)[:300]}, {"exception": cls, "message": str(val)[:300]},
@@ -176,6 +178,77 @@ def main():
         if len(rep["samples"]) < 3 and "ok" in ret and rule_t.startswith("{"):
             rep["samples"].append({"apply_serialized": [rule_t[:200], data_t[:200]], "library": ret["ok"][:200]})
 
+    # ---- inputs no JSON text round-trip produces -------------------------------------------
+    # texts that cannot be encoded as UTF-8 (lone surrogates): never a value, always ValueError
+    for bad in ('"\ud800"', '{"==":["\ud800","\udfff"]}', '"x\udfff\ud800"', '{"cat":["a\udc00"]}'):
+        for label, fn in (("apply_serialized(surrogate-rule)", lambda: jsonlogic_rs.apply_serialized(bad, "null")),
+                          ("apply_serialized(surrogate-data)", lambda: jsonlogic_rs.apply_serialized('{"var":""}', bad)),
+                          ("apply_serialized(surrogate,de)", lambda: jsonlogic_rs.apply_serialized(bad, None, json.loads))):
+            res = call(label, fn, ascii(bad), "null")
+            judge(label, "c19.apply_serialized", res, None, ascii(bad), "null", NOVALUE)
+    # dicts with non-str keys are JSON-representable for json.dumps (keys are coerced): the module
+    # must agree with the library on the text json.dumps produces
+    odd = [{1: "one", "b": 2}, {None: 1, "x": [1]}, {True: 2, "a": {2: 3}}, {1.5: 0}, {"a": 1, 2: "two"}, [{"k": 1, 0: "zero"}]]
+    for o in odd:
+        for rule_o, data_o in (({"var": "a"}, o), ({"var": ""}, o), ({"merge": [o, 1]}, None), ({"cat": [{"var": ""}]}, o), ({"in": [{"var": "0"}, [o]]}, o)):
+            try:
+                r2, d2 = json.dumps(rule_o), json.dumps(data_o)
+            except (TypeError, ValueError):
+                continue
+            o2 = LIB.ask(r2, d2)
+            want2 = json.loads(o2["ret"]["ok"]) if "ok" in o2["ret"] else NOVALUE
+            res = call("apply(non-str-keys)", lambda: jsonlogic_rs.apply(rule_o, data_o), r2, d2)
+            judge("apply(non-str-keys)", "c19.apply", res, o2, r2, d2, want2)
+    # keyword arguments, subclasses of the built-in types
+    class S(str):
+        pass
+    class D(dict):
+        pass
+    class L(list):
+        pass
+    for rule_o, data_o in (({"var": "a"}, {"a": [1, 2.0, "x"]}), ({"+": [1, {"var": "n"}]}, {"n": 41}), ({"cat": [{"var": ""}]}, "plain")):
+        r2, d2 = json.dumps(rule_o), json.dumps(data_o)
+        o2 = LIB.ask(r2, d2)
+        want2 = json.loads(o2["ret"]["ok"]) if "ok" in o2["ret"] else NOVALUE
+        variants = [
+            ("apply(kw)", lambda: jsonlogic_rs.apply(value=rule_o, data=data_o)),
+            ("apply(kw-all)", lambda: jsonlogic_rs.apply(value=rule_o, data=data_o, serializer=json.dumps, deserializer=json.loads)),
+            ("apply(subclasses)", lambda: jsonlogic_rs.apply(D(rule_o), L(data_o) if isinstance(data_o, list) else (D(data_o) if isinstance(data_o, dict) else S(data_o)))),
+            ("apply_serialized(kw)", lambda: jsonlogic_rs.apply_serialized(value=r2, data=d2)),
+            ("apply_serialized(kw-de)", lambda: jsonlogic_rs.apply_serialized(value=r2, data=d2, deserializer=json.loads)),
+            ("apply_serialized(str-subclass)", lambda: jsonlogic_rs.apply_serialized(S(r2), S(d2))),
+        ]
+        for label, fn in variants:
+            res = call(label, fn, r2, d2)
+            judge(label, "c19.apply", res, o2, r2, d2, want2)
+    # ---- the wrapper keeps no state: the same objects mutated between calls -----------------
+    m = mon("c19.stateless-wrapper")
+    seqs = []
+    r = {"var": "a"}
+    d = {"a": 1, "b": 2}
+    seqs.append((r, d, lambda: r.__setitem__("var", "b")))
+    r_l = {"+": [1, 2]}
+    seqs.append((r_l, None, lambda: r_l["+"].append(39)))
+    r_i = {">": [{"var": "temp"}, 30]}
+    d_i = {"temp": 15}
+    seqs.append((r_i, d_i, lambda: d_i.__setitem__("temp", 99)))
+    r_n = {"if": [{"var": "x"}, "yes", "no"]}
+    d_n = {"x": 0}
+    seqs.append((r_n, d_n, lambda: r_n["if"].__setitem__(0, True)))
+    r_a = [1, {"var": "a"}]
+    seqs.append((r_a, {"a": 1}, lambda: r_a.append(3)))
+    for rule_o, data_o, mutate in seqs:
+        for use_ser in (False, True):
+            for rounds in range(3):
+                r2, d2 = json.dumps(rule_o), json.dumps(data_o)
+                o2 = LIB.ask(r2, d2)
+                want2 = json.loads(o2["ret"]["ok"]) if "ok" in o2["ret"] else NOVALUE
+                kw = {"serializer": json.dumps} if use_ser else {}
+                res = call("apply(reused-object)", lambda: jsonlogic_rs.apply(rule_o, data_o, **kw), r2, d2)
+                judge("apply(reused-object)", "c19.stateless-wrapper", res, o2, r2, d2, want2)
+                res = call("apply_serialized(after-apply)", lambda: jsonlogic_rs.apply_serialized(r2, d2), r2, d2)
+                judge("apply_serialized(after-apply)", "c19.stateless-wrapper", res, o2, r2, d2, want2)
+                mutate()
     # non-finite floats and other objects json.dumps turns into non-JSON text -> ValueError
     for obj in (float("nan"), float("inf"), [1, float("-inf")], {"a": float("nan")}):
         for label, fn in (("apply(nan-rule)", lambda: jsonlogic_rs.apply(obj, None)), ("apply(nan-data)", lambda: jsonlogic_rs.apply({"var": ""}, obj))):
